@@ -85,7 +85,18 @@ def gen_unit(rng):
         k = rng.randrange(len(rows))
         big = rng.choice(("x" * 70000, "he said \"hi\", twice " * 3500, list(range(15000)), {"k": "y" * 66000})) if not text else "z" * 70000
         rows[k]["f%d" % rng.randrange(ncols)] = big
-    u = {"mode": mode, "names": names, "rows": rows, "opts": {}}
+    exprs = {}
+    if rng.random() < 0.2:
+        # selections without a name: the selection's own text is the name, however long it is
+        for i in rng.sample(range(ncols), rng.randint(1, ncols)):
+            e = rng.choice((".f%d", "(default .f%d (get . \"f%d\"))", "(? (object? .) .f%d .nosuchmember.deeper.still.and.deeper)",
+                            "(default .f%d .f%d .f%d .f%d .f%d .f%d)")).replace("%d", str(i))
+            exprs[str(i)] = e
+            names[i] = e
+    u = {"mode": mode, "names": names, "rows": rows, "opts": {}, "exprs": exprs}
+    if rng.random() < 0.2:
+        # limits cut rows, never the header
+        u["limit"] = [rng.choice((0, 0, 1, 2)), rng.choice((0, 0, 1, 2, 5, 100))]
     u["rowsep"] = rng.choice(["\n", "\n", "\r\n"]) if not text else rng.choice(["\n", "\n", "\r\n", "^^\n", "@@", "@\r\n"])
     if text:
         o = {}
@@ -108,7 +119,14 @@ def build_args(unit):
     if unit.get("rowsep", "\n") != "\n":
         a.append("--row-seperator=" + unit["rowsep"])
     for i, n in enumerate(unit["names"]):
-        a.append("--select=.f%d=%s" % (i, n))
+        if str(i) in unit.get("exprs", {}):
+            a.append("--select=" + unit["exprs"][str(i)])
+        else:
+            a.append("--select=.f%d=%s" % (i, n))
+    if unit.get("limit"):
+        if unit["limit"][0]:
+            a += ["--skip", str(unit["limit"][0])]
+        a += ["--take", str(unit["limit"][1])]
     o = unit["opts"]
     if unit["mode"] == "text":
         a.append("--items-seperator=" + o["sep"])
@@ -179,6 +197,9 @@ def run_unit(ctx, unit):
         return
     n = len(unit["names"])
     rows = unit["rows"]
+    if unit.get("limit"):
+        rows = rows[unit["limit"][0]:unit["limit"][0] + unit["limit"][1]]
+        st.count("runs_with_limits")
 
     def bad(sig, msg, extra=None):
         d = {"args": args, "stdout": out[:1200]}
